@@ -1028,6 +1028,9 @@ func (s *Session) execUpdate(x *ast.UpdateStmt, args []interface{}, now time.Tim
 		s.tx.changes = append(s.tx.changes, RowChange{Table: t.Name, Key: ok, Before: old, After: nr})
 		affected++
 	}
+	if s.FoundRows {
+		affected = uint64(len(rows))
+	}
 	return result{affected: affected}
 }
 
